@@ -169,3 +169,27 @@ class program:
                 raise SampleAssemblyError(message) from e
 
         return data
+
+
+class program:
+    def cli(cls, command):
+
+        """Program initialization from cli command"""
+
+        parser = argparse.ArgumentParser('Exact haplotype calling')
+
+        for arg in CALL_EXACT_PARSER_ARGUMENTS:
+
+            arg.add_to(parser)
+
+        if len(command) < 3:
+
+            parser.print_help()
+
+            sys.exit(1)
+
+        args = parser.parse_args(command[2:])
+
+        arguments = collect_call_exact_program_arguments(args)
+
+        return cls(cli_command=command, **arguments)
